@@ -805,6 +805,46 @@ type ReRole struct {
 
 func RE(pattern, to string) ReRole { return ReRole{regexp.MustCompile(pattern), to} }
 
+// emptyString recognises len(s) ⋈ c for a string s and c ∈ {0, 1} as an emptiness test bound through Eq[s|""].
+func (b *Binder) emptyString(be *ast.BinaryExpr, st Store) (Tri, bool) {
+	side := func(l, r ast.Expr, op token.Token) (Tri, bool) {
+		call, ok := Unparen(l).(*ast.CallExpr)
+		if !ok || len(call.Args) != 1 {
+			return U, false
+		}
+		if id, ok := call.Fun.(*ast.Ident); !ok || id.Name != "len" {
+			return U, false
+		}
+		if t, ok := b.Fn.Info().TypeOf(call.Args[0]).Underlying().(*types.Basic); !ok || t.Info()&types.IsString == 0 {
+			return U, false
+		}
+		c := b.C(r, st)
+		if c != "0" && c != "1" {
+			return U, false
+		}
+		a, ok := b.Eq[b.C(call.Args[0], st)+`|""`]
+		if !ok {
+			return U, false
+		}
+		empty := b.Row[a] == "T"
+		switch {
+		case c == "0" && op == token.EQL, c == "0" && op == token.LEQ, c == "1" && op == token.LSS:
+			return FromBool(empty), true
+		case c == "0" && op == token.NEQ, c == "0" && op == token.GTR, c == "1" && op == token.GEQ:
+			return FromBool(!empty), true
+		}
+		return U, false
+	}
+	if r, ok := side(be.X, be.Y, be.Op); ok {
+		return r, true
+	}
+	flip := map[token.Token]token.Token{token.EQL: token.EQL, token.NEQ: token.NEQ, token.LSS: token.GTR, token.GTR: token.LSS, token.LEQ: token.GEQ, token.GEQ: token.LEQ}
+	if op, ok := flip[be.Op]; ok {
+		return side(be.Y, be.X, op)
+	}
+	return U, false
+}
+
 func (b *Binder) Leaf(e ast.Expr, st Store) Tri {
 	e = Unparen(e)
 	if b.parent != nil {
@@ -827,6 +867,10 @@ func (b *Binder) Leaf(e ast.Expr, st Store) Tri {
 		// X > c ≡ X ≥ c+1, X ≤ c ≡ X < c+1 (only for integer-typed operands, e.g. len(x) < 1 ≡ len(x) == 0
 		// when the atom orders len(x) against 0 and lengths are never negative)
 		if r, ok := b.neighbourCmp(be, x, y); ok {
+			return r
+		}
+		// len(s) == 0 / != 0 / > 0 / < 1 on a string is a comparison of s with "" (bound as an Eq atom s|"")
+		if r, ok := b.emptyString(be, st); ok {
 			return r
 		}
 		if be.Op == token.EQL || be.Op == token.NEQ {
